@@ -728,6 +728,25 @@ def subst(text, env):
     return text
 
 
+def _top_groups(spec):
+    """contents of the top-level parenthesised groups of `spec` (nested parentheses allowed inside a group)"""
+    out, depth, cur = [], 0, []
+    for ch in spec:
+        if ch == "(":
+            depth += 1
+            if depth == 1:
+                cur = []
+                continue
+        elif ch == ")":
+            depth -= 1
+            if depth == 0:
+                out.append("".join(cur))
+                continue
+        if depth >= 1:
+            cur.append(ch)
+    return out
+
+
 def expand_includes(lines, root):
     out = []
     for ln in lines:
@@ -755,16 +774,23 @@ def expand_for(lines, root):
             if spec.startswith("@"):
                 key = spec[1:]
                 only = None
+                if key == "OTHERS":
+                    # all families except the instance's own
+                    for fl in open(root + "/specs/families.txt"):
+                        if fl.startswith("ALL10:"):
+                            spec = fl.split(":", 1)[1]
+                    spec = " ".join("(" + t + ")" for t in re.findall(r"\(([^()]*)\)", spec) if t.split(";")[0].strip() != PARAMS.get("FAM"))
+                    key = None
                 if key in ("ONE", "ONE_SIGNED"):
                     # unit instance for a single family (driver runs the ten instances in parallel)
                     only = PARAMS.get("FAM")
                     key = "ALL10" if key == "ONE" else "SIGNED5"
                 for fl in open(root + "/specs/families.txt"):
-                    if fl.startswith(key + ":"):
+                    if key is not None and fl.startswith(key + ":"):
                         spec = fl.split(":", 1)[1]
                 if only is not None:
                     spec = " ".join("(" + t + ")" for t in re.findall(r"\(([^()]*)\)", spec) if t.split(";")[0].strip() == only)
-            tuples = re.findall(r"\(([^()]*)\)", spec)
+            tuples = _top_groups(spec)
             depth = 1
             j = i + 1
             while j < len(lines):
@@ -859,7 +885,9 @@ def render_unit(idx, tmpl_path, root, must_fail=False, params=None):
             rules = Rules()
             strs = rewrite_tokens(idx.toks[it.t0:it.t1 + 1], rules, {})
             if m.group(2) == "struct":
-                # R5: fields become pub
+                # R5: fields become pub (pub(crate) too)
+                joined = " ".join(strs).replace("pub ( crate )", "pub")
+                strs = joined.split(" ")
                 res = []
                 depth = 0
                 for k2, x in enumerate(strs):
